@@ -301,14 +301,14 @@ Fixpoint events_eqb (a b : list event) : bool :=
 
 (* What the driver compares: the event log without the finished_prefix
    notifications of prefix directories nobody watches (there are 1024). *)
-Definition observe (watch : list nat) (tr : list event) : list event :=
+Definition observe (watch : list N) (tr : list event) : list event :=
   filter (fun e => match e with
-                   | EPrefixDone _ i => existsb (Nat.eqb i) watch
+                   | EPrefixDone _ i => existsb (N.eqb (N.of_nat i)) watch
                    | _ => true
                    end) tr.
 
 (* driver term: observed log and final state of a run *)
-Definition run_agrees (n : nat) (assoc : list (nat * list name)) (specs : list slice_spec) (watch : list nat)
+Definition run_agrees (n : nat) (assoc : list (nat * list name)) (specs : list slice_spec) (watch : list N)
            (expected : list event) (final : pstate) : bool :=
   let r := run (mk_dirs n assoc) (load init_pstate) specs in
   events_eqb (observe watch (fst r)) expected && pstate_eqb (ms_p (snd r)) final.
